@@ -307,6 +307,12 @@ def primitives(ctx) -> None:
             o = core.src(enum.iter)[len('enumerate('):-len('.output)')]
             i, s = core.src(enum.target.elts[0]), core.src(inner.target)
             ok = pub == f'get({o})[{i}]' and sub == f'get({s}.node)[{s}.port]'
+    if gen is not None and ok:
+        ifs = [core.src(c) for g_ in gen.generators for c in g_.ifs]
+        s_ = core.src(inner.target)
+        conj = len(ifs) == 1 and isinstance(gen.generators[-1].ifs[0], ast.BoolOp) and isinstance(gen.generators[-1].ifs[0].op, ast.And) and not any(isinstance(b, ast.BoolOp) and isinstance(b.op, ast.Or) for b in ast.walk(gen.generators[-1].ifs[0]))
+        terms = [core.src(v) for v in gen.generators[-1].ifs[0].values] if conj else []
+        ctx.check(conj and f'{s_}.node in t.members' in terms, 'C03.copy', tc, f'only subscriptions whose subscriber lies inside the copied segment are re-created (conjunctive filter {ifs})', gen, key='Traversal.copy:members-only')
     ctx.check(ok, 'C03.copy', tc, 'the copy connects output port i of the copied publisher to the subscriber\'s own input port (get(o)[i] -> get(s.node)[s.port])', gen or tc.node, key='Traversal.copy:ports')
     ctx.check('copies.get(node) or copies.setdefault(node, node.fork())' in core.src(tc.node), 'C03.copy', tc, 'copied nodes are forks (same group => same state) created once per node', tc.node, key='Traversal.copy:fork')
     # the path enumeration is complete: every path from the pivot to the tail is yielded - no pruning of nodes already met on
